@@ -331,7 +331,7 @@ def collision_models():
              ('x1', 'x\u0661'), ('ab', '"ab"'), ('a_b', 'a-b'), ('Data Base', 'DataBase'), ('GPS', 'gps')]
     out = []
     for a, b in pairs:
-        out.append(M(F('Fa', [R(1, 1, [F(a, [R(1, 1, [F('Bb')])])]), R(0, 1, [F(b, [R(0, 1, [F('Dc')])])])]),
+        out.append(M(F('Fa', [R(0, 1, [F(a, [R(1, 1, [F('Ca')])])]), R(0, 1, [F(b, [R(0, 1, [F('Cb')])])]), R(0, 1, [F('Bb')]), R(0, 1, [F('Dc')])]),
                      [('c1', ('REQUIRES', a, b)), ('c2', ('EXCLUDES', b, 'Dc')), ('c3', ('IMPLIES', a, 'Bb')), ('c4', ('IMPLIES', b, 'Bb')),
                       ('c5', ('IMPLIES', a, 'Bb'))]))
     return out
